@@ -428,6 +428,15 @@ class Builtins:
     # ------------------------------------------------------------- methods of str / list
     def str_method(self, recv, name, pos, kw, st):
         E = self.E
+        if isinstance(recv, RefsDict) and name == "get":
+            # dict.get(key, default) on the collections of a line: the list object stored under key, else the default
+            key = S(pos[0])
+            has = st.zh["refs_has"][recv.owner.t][key]
+            if E.feasible(st, has):
+                yield ("val", LRef(st.zh["refs"][recv.owner.t][key]), st.assume(has))
+            if E.feasible(st, z3.Not(has)):
+                yield ("val", pos[1] if len(pos) > 1 else None, st.assume(z3.Not(has)))
+            return
         if isinstance(recv, str) and name == "format":
             cs = [conc(p) for p in pos]
             if all(c is not NotConcrete and isinstance(c, (str, int)) for c in cs) and not kw:
